@@ -140,9 +140,10 @@ func (c *call) UnmarshalJSON(b []byte) error {
 }
 
 type result struct {
-	got int    // TryGet: value id
-	res string // Hash / Commit / reopen: root hex
-	err bool
+	got      int    // TryGet: value id
+	res      string // Hash / Commit / reopen: root hex
+	err      bool
+	panicked bool
 }
 
 // apply executes one call of the history on the real trie.
@@ -150,6 +151,7 @@ func (s *subject) apply(c call) (r result) {
 	defer func() {
 		if p := recover(); p != nil {
 			r.err = true
+			r.panicked = true
 			r.res = fmt.Sprintf("panic: %v", p)
 		}
 	}()
@@ -297,92 +299,112 @@ func memNode(v reflect.Value, get trieutil.Resolver) (*trieutil.Node, error) {
 	return nil, fmt.Errorf("unexpected in-memory node type %s", v.Type())
 }
 
+// stage runs one observation; a panic of the real code is recorded, not propagated.
+func stage(p map[string]interface{}, name string, f func()) {
+	defer func() {
+		if r := recover(); r != nil {
+			p["panic"] = p["panic"].(string) + name + ": " + fmt.Sprint(r) + "; "
+		}
+	}()
+	f()
+}
+
 func project(s *subject) map[string]interface{} {
-	p := map[string]interface{}{}
+	p := map[string]interface{}{"panic": "", "memOK": false, "mem": specNode(nil), "hash": "none", "gets": make([]int, nKeys),
+		"iter": []interface{}{}, "iterErr": true, "nit": []interface{}{}, "nitErr": true, "commit": "none", "commitErr": true,
+		"storedOK": false, "tree": specNode(nil), "hashed": []interface{}{}, "ref": "undecodable", "fresh": "none"}
 	get := func(h []byte) ([]byte, bool) {
 		b, err := s.nodedb.Node(common.BytesToHash(h))
 		return b, err == nil && len(b) > 0
 	}
 	// 1. the in-memory graph, before anything is called on the trie
-	memOK := true
-	mem, err := memNode(reflect.ValueOf(s.t).Elem().FieldByName("root"), get)
-	if err != nil {
-		memOK = false
-		p["memErr"] = err.Error()
-	}
-	p["memOK"] = memOK
-	p["mem"] = specNode(mem)
+	stage(p, "mem", func() {
+		mem, err := memNode(reflect.ValueOf(s.t).Elem().FieldByName("root"), get)
+		if err != nil {
+			p["memErr"] = err.Error()
+			return
+		}
+		p["memOK"] = true
+		p["mem"] = specNode(mem)
+	})
 	// 2. Hash
-	h := s.t.Hash()
-	p["hash"] = trieutil.Hex(h[:])
+	stage(p, "Hash", func() {
+		h := s.t.Hash()
+		p["hash"] = trieutil.Hex(h[:])
+	})
 	// 3. TryGet of every key of the universe
 	gets := make([]int, nKeys)
 	pairs := map[int]int{}
 	for k := 1; k <= nKeys; k++ {
-		v, err := s.t.TryGet(keyBytes[k])
-		if err != nil {
-			gets[k-1] = failed
-			continue
-		}
-		gets[k-1] = valID(v)
-		if len(v) != 0 {
-			pairs[k] = gets[k-1]
-		}
+		gets[k-1] = failed
+		stage(p, "TryGet", func() {
+			v, err := s.t.TryGet(keyBytes[k])
+			if err != nil {
+				return
+			}
+			gets[k-1] = valID(v)
+			if len(v) != 0 {
+				pairs[k] = gets[k-1]
+			}
+		})
 	}
 	p["gets"] = gets
 	// 4. iteration: key/value pairs and the node sequence
-	iter := make([]interface{}, 0)
-	it := trie.NewIterator(s.t.NodeIterator(nil))
-	for it.Next() {
-		iter = append(iter, []int{keyID(it.Key), valID(it.Value)})
-	}
-	p["iter"] = iter
-	p["iterErr"] = it.Err != nil
-	nit := make([]interface{}, 0)
-	ni := s.t.NodeIterator(nil)
-	for ni.Next(true) {
-		nit = append(nit, []interface{}{ints(ni.Path()), ni.Leaf(), ni.Hash() != (common.Hash{})})
-	}
-	p["nit"] = nit
-	p["nitErr"] = ni.Error() != nil
+	stage(p, "Iterator", func() {
+		iter := make([]interface{}, 0)
+		it := trie.NewIterator(s.t.NodeIterator(nil))
+		for it.Next() {
+			iter = append(iter, []int{keyID(it.Key), valID(it.Value)})
+		}
+		p["iter"] = iter
+		p["iterErr"] = it.Err != nil
+	})
+	stage(p, "NodeIterator", func() {
+		nit := make([]interface{}, 0)
+		ni := s.t.NodeIterator(nil)
+		for ni.Next(true) {
+			nit = append(nit, []interface{}{ints(ni.Path()), ni.Leaf(), ni.Hash() != (common.Hash{})})
+		}
+		p["nit"] = nit
+		p["nitErr"] = ni.Error() != nil
+	})
 	// 5. Commit and read the stored structure back with independent primitives
-	root, err := s.t.Commit(nil)
-	p["commit"] = trieutil.Hex(root[:])
-	p["commitErr"] = err != nil
-	var stored *trieutil.Node
-	storedOK := true
-	if !bytes.Equal(root[:], trieutil.EmptyRoot) {
-		stored, err = trieutil.DecodeStored(root[:], get)
-		if err != nil {
-			storedOK = false
-			p["storedErr"] = err.Error()
-		}
-	}
-	p["storedOK"] = storedOK
-	p["tree"] = specNode(stored)
-	hp := make([]interface{}, 0)
-	hashedPaths(stored, nil, &hp)
-	p["hashed"] = hp
 	// 6. digest of that structure under the independent encoder
-	ref := "undecodable"
-	if storedOK {
-		ref = trieutil.Hex(trieutil.Root(stored))
-	}
-	p["ref"] = ref
-	// 7. the real root of a fresh real trie holding the observed pairs, sorted inserts
-	f := newSubject()
-	ks := make([]int, 0, len(pairs))
-	for k := range pairs {
-		ks = append(ks, k)
-	}
-	sort.Slice(ks, func(i, j int) bool { return bytes.Compare(keyBytes[ks[i]], keyBytes[ks[j]]) < 0 })
-	for _, k := range ks {
-		if pairs[k] <= nVals {
-			f.t.TryUpdate(keyBytes[k], valBytes[pairs[k]])
+	stage(p, "Commit", func() {
+		root, err := s.t.Commit(nil)
+		p["commit"] = trieutil.Hex(root[:])
+		p["commitErr"] = err != nil
+		var stored *trieutil.Node
+		if !bytes.Equal(root[:], trieutil.EmptyRoot) {
+			stored, err = trieutil.DecodeStored(root[:], get)
+			if err != nil {
+				p["storedErr"] = err.Error()
+				return
+			}
 		}
-	}
-	fh := f.t.Hash()
-	p["fresh"] = trieutil.Hex(fh[:])
+		p["storedOK"] = true
+		p["tree"] = specNode(stored)
+		hp := make([]interface{}, 0)
+		hashedPaths(stored, nil, &hp)
+		p["hashed"] = hp
+		p["ref"] = trieutil.Hex(trieutil.Root(stored))
+	})
+	// 7. the real root of a fresh real trie holding the observed pairs, sorted inserts
+	stage(p, "fresh", func() {
+		f := newSubject()
+		ks := make([]int, 0, len(pairs))
+		for k := range pairs {
+			ks = append(ks, k)
+		}
+		sort.Slice(ks, func(i, j int) bool { return bytes.Compare(keyBytes[ks[i]], keyBytes[ks[j]]) < 0 })
+		for _, k := range ks {
+			if pairs[k] <= nVals {
+				f.t.TryUpdate(keyBytes[k], valBytes[pairs[k]])
+			}
+		}
+		fh := f.t.Hash()
+		p["fresh"] = trieutil.Hex(fh[:])
+	})
 	return p
 }
 
@@ -448,7 +470,7 @@ func main() {
 	}
 	calls := 0
 	base := func(event string, c call, r result) map[string]interface{} {
-		return map[string]interface{}{"event": event, "k": c.K, "v": c.V, "got": r.got, "res": r.res, "err": r.err,
+		return map[string]interface{}{"event": event, "k": c.K, "v": c.V, "got": r.got, "res": r.res, "err": r.err, "panicked": r.panicked,
 			"ops": []interface{}{}, "keys": []interface{}{}, "vlen": []int{}, "vfirst": []int{}}
 	}
 	for n, h := range histories {
